@@ -49,6 +49,23 @@ def run(res, ctx):
         # ---------------- (1) co-scan / order
         n = 8 if thorough else 5
         sources = [progs.make_program(rng)[0] for _ in range(n)]
+        # suppression comments: the same comment texts recur across lines and files (blanket, specific by id / by name, unknown), and multi-line statements carry two
+        # different comments (seeded change C08-m1: a memoised comment parser + in-place merge made `# nosec` mean something else after such a statement was scanned)
+        NOSEC = ["# nosec", "# nosec B602", "#nosec B301, B403", "# nosec: subprocess_popen_with_shell_equals_true", "# nosec B999", "# nosec B404 B603", "# NOSEC", "# nosec B607 -- why"]
+        ML = ["import subprocess\nsubprocess.Popen('/bin/ls %s' % d,  {a}\n                 shell=True)  {b}\n", "import pickle\nx = pickle.loads(  {a}\n    blob)  {b}\n",
+              "import os\nos.system('ls'  {a}\n          ' -l' + arg)  {b}\n", "def f(a,  {a}\n      password='pw'):  {b}\n    pass\n", "cfg = {{'password': 'x',  {a}\n       'tmp': '/tmp/y'}}  {b}\n"]
+        def nosecify(src):
+            out = []
+            for l in src.split("\n"):
+                out.append(l + "  " + rng.choice(NOSEC) if l and rng.random() < 0.45 else l)
+            return "\n".join(out)
+        pairs = [(a, b) for a in NOSEC for b in NOSEC if a != b]          # every ordered pair of different comments on the two lines of one statement
+        rng.shuffle(pairs)
+        per = -(-len(pairs) // n)
+        for i in range(n):
+            body = "".join(rng.choice(ML).format(a=a, b=b) for a, b in pairs[i * per:(i + 1) * per])
+            sources.append(body + nosecify(progs.make_program(rng, k=4)[0]))
+        sources.append("import pickle  # nosec\nimport subprocess  # nosec\npickle.loads(b)  # nosec\n")
         root = os.path.join(scratch.root, "cos"); os.makedirs(root)
         paths = []
         for i, s in enumerate(sources):
@@ -61,14 +78,37 @@ def run(res, ctx):
             m.discover_files(list(ps)); m.run_tests(); C.take_log()
             return per_file(m)
 
+        # the reference for each file is a scan of it ALONE IN A PRISTINE INTERPRETER (nothing was scanned, no scanner object existed before): an in-process
+        # "alone" scan would already be behind whatever state an earlier scan of this very run left
+        from concurrent.futures import ThreadPoolExecutor
+        def pristine(p):
+            rc, out, err = cli_subprocess(["-f", "json", "-q", p], root, 0)
+            try:
+                data = json.loads(out)
+            except ValueError:
+                return os.path.basename(p), None, err[-300:]
+            return os.path.basename(p), sorted((r["test_id"], r["issue_severity"], r["issue_confidence"], r["line_number"], list(r["line_range"]), r["col_offset"], r["issue_text"])
+                                               for r in data["results"]), None
         alone = {}
+        with ThreadPoolExecutor(8) as ex:
+            for b, fs, err in ex.map(pristine, paths):
+                if fs is None:
+                    res.break_("pristine-scan-failed", {"file": b, "stderr": err})
+                    fs = []
+                alone[b] = fs
         for p in paths:
-            alone.update(scan([p]))
+            got = scan([p])
+            b = os.path.basename(p)
+            res.case(("in-process-alone", b), bool(alone[b]))
+            if got.get(b, []) != alone[b]:
+                res.violation("a file's findings in this process differ from its findings in a pristine interpreter (something scanned or constructed earlier leaked)",
+                              {"file": b, "program": open(p).read(), "pristine": [list(x) for x in alone[b]], "in_process": [list(x) for x in got.get(b, [])]})
         trials = [("all", paths), ("reversed", paths[::-1])]
         for k in range(6 if thorough else 3):
             sub = rng.sample(paths, rng.randint(2, len(paths)))
             rng.shuffle(sub)
             trials.append((f"subset{k}", sub))
+        trials += [("alone-again:" + os.path.basename(p), [p]) for p in paths]      # nothing scanned so far may have changed what a file yields
         for label, ps in trials:
             got = scan(ps)
             for p in ps:
